@@ -868,57 +868,59 @@ class CCodeGenerator:
             self.gen_local_init(ir_addr, variable.typ, variable.initial_value)
 
     def gen_local_init(self, ptr, typ, expr):
-        """Initialize a local slab of memory with an initial value"""
-        if isinstance(typ, (BasicType, types.PointerType, types.EnumType)):
+        """Initialize the local object of a type at the address ptr.
+
+        The address of each part of the object is the address of the
+        object plus the offset of the part.
+        """
+        if isinstance(expr, expressions.ArrayInitializer):
+            self.gen_local_init_array(ptr, typ, expr)
+        elif isinstance(expr, expressions.StructInitializer):
+            self.gen_local_init_struct(ptr, typ, expr)
+        elif isinstance(expr, expressions.UnionInitializer):
+            self.gen_local_init_union(ptr, typ, expr)
+        else:
+            # A single expression, for a struct or union the value of
+            # another object or the result of a function.
             value = self.gen_expr(expr, rvalue=True)
             self._store_value(value, ptr)
-            inc = self.sizeof(typ)
-            ptr = self.builder.emit_add(ptr, inc, ir.ptr)
-        elif isinstance(typ, types.ArrayType):
-            ptr, inc = self.gen_local_init_array(ptr, typ, expr)
-        elif isinstance(typ, types.StructType):
-            ptr, inc = self.gen_local_init_struct(ptr, typ, expr)
-        elif isinstance(typ, types.UnionType):
-            ptr, inc = self.gen_local_init_union(ptr, typ, expr)
-        else:  # pragma: no cover
-            raise NotImplementedError(str(typ))
-        return ptr, inc
+
+    def _offset_address(self, ptr, offset):
+        """Address of the part at a byte offset of the object at ptr."""
+        if offset:
+            ptr = self.builder.emit_add(ptr, offset, ir.ptr)
+        return ptr
 
     def gen_local_init_union(self, ptr, typ, expr):
         """Initialize a union type local variable"""
         assert isinstance(expr, expressions.UnionInitializer)
         assert expr.typ is typ
 
-        # Initialize the first field!
+        # Initialize the selected field, that is the first one when not
+        # designated. A union has the size of its largest member.
         field = expr.field
-        ivalue = expr.value
-        ptr, inc = self.gen_local_init(ptr, field.typ, ivalue)
-        # Update pointer with size of union:
-        # inc = self.context.sizeof(typ)
-        # size = self.emit(ir.Const(inc, 'size', ir.ptr))
-        # ptr = self.emit(ir.add(ptr, size, 'iptr', ir.ptr))
-        return ptr, inc
+        if self.sizeof(field.typ) < self.sizeof(typ):
+            self.gen_local_zero(ptr, typ)
+        self.gen_local_init(ptr, field.typ, expr.value)
 
     def gen_local_init_array(
         self, ptr, typ, expr: expressions.ArrayInitializer
     ):
         assert isinstance(expr, expressions.ArrayInitializer)
-        inc = 0
-        for value in expr.values:
+        element_typ = typ.element_type
+        element_size = self.sizeof(element_typ)
+        array_size = self.context.eval_expr(typ.size)
+        for index in range(array_size):
             # TODO: do array elements need to be aligned?
-            if value is None:
-                # Implicit value (a hole between other valid values.)
-                ptr, inc2 = self.gen_local_zero(ptr, typ.element_type)
+            element_ptr = self._offset_address(ptr, index * element_size)
+            if index < len(expr.values) and expr.values[index] is not None:
+                value = expr.values[index]
+                self.gen_local_init(element_ptr, element_typ, value)
             else:
-                ptr, inc2 = self.gen_local_init(ptr, typ.element_type, value)
-            inc += inc2
-
-        # Elements without initializer are set to zero:
-        size = self.sizeof(typ)
-        while inc < size:
-            ptr, inc2 = self.gen_local_zero(ptr, typ.element_type)
-            inc += inc2
-        return ptr, inc
+                # Implicit value (a hole between other valid values, or
+                # an element after the last valid value).
+                # Elements without initializer are set to zero.
+                self.gen_local_zero(element_ptr, element_typ)
 
     def gen_local_zero(self, ptr, typ):
         """Fill a part of a local variable with zeros.
@@ -939,59 +941,36 @@ class CCodeGenerator:
             if size - offset < chunk:
                 chunk, ir_typ = 1, ir.u8
             zero = self.emit(ir.Const(0, "zero", ir_typ))
-            self.emit(ir.Store(zero, ptr))
-            ptr = self.builder.emit_add(ptr, chunk, ir.ptr)
+            self.emit(ir.Store(zero, self._offset_address(ptr, offset)))
             offset += chunk
-        return ptr, size
 
     def gen_local_init_struct(self, ptr, typ, expr):
         """Fill structure with initializer (at runtime)"""
-        if isinstance(expr, expressions.StructInitializer):
-            # Initializing with initialization values
-            assert expr.typ is typ
-            size, field_offsets = self.context.get_field_offsets(typ)
-            offset = 0
-            for field in typ.fields:
-                # Move further in struct by whole bytes:
-                field_offset = field_offsets[field] // 8
-                if offset < field_offset:
-                    pad_inc = field_offset - offset
-                    ptr = self.builder.emit_add(ptr, pad_inc, ir.ptr)
-                    offset += pad_inc
+        assert isinstance(expr, expressions.StructInitializer)
+        assert expr.typ is typ
+        field_offsets = self.context.get_field_offsets(typ)[1]
+        for field in typ.fields:
+            # Move further in struct by whole bytes:
+            field_offset = field_offsets[field] // 8
+            field_ptr = self._offset_address(ptr, field_offset)
 
-                # Fill position:
-                if field.is_bitfield:  # Bit field special case!
-                    if field in expr.values:
-                        value = expr.values[field]
-                        value = self.gen_expr(value, rvalue=True)
-                        bitsize = self.context.eval_expr(field.bitsize)
-                        bitshift = field_offsets[field] % 8
-                        signed = field.typ.is_signed
-                        access = BitFieldAccess(ptr, bitshift, bitsize, signed)
-                        self._store_bitfield(value, access)
-                    # TODO: how much to increase now?
-                    inc2 = 0
-                else:
-                    if field in expr.values:
-                        value = expr.values[field]
-                        ptr, inc2 = self.gen_local_init(ptr, field.typ, value)
-                    else:
-                        ptr, inc2 = self.gen_local_zero(ptr, field.typ)
-                offset += inc2
-
-            # Fill last padding space:
-            if offset < size:
-                pad_inc = size - offset
-                ptr = self.builder.emit_add(ptr, pad_inc, ir.ptr)
-                offset += pad_inc
-            inc = offset
-            assert inc == size
-        else:
-            # Store result of function!
-            value = self.gen_expr(expr, rvalue=True)
-            self.emit(ir.Store(value, ptr))
-            inc = value.ty.size
-        return ptr, inc
+            # Fill position:
+            if field.is_bitfield:  # Bit field special case!
+                if field in expr.values:
+                    value = expr.values[field]
+                    value = self.gen_expr(value, rvalue=True)
+                    bitsize = self.context.eval_expr(field.bitsize)
+                    bitshift = field_offsets[field] % 8
+                    signed = field.typ.is_signed
+                    access = BitFieldAccess(
+                        field_ptr, bitshift, bitsize, signed
+                    )
+                    self._store_bitfield(value, access)
+            elif field in expr.values:
+                value = expr.values[field]
+                self.gen_local_init(field_ptr, field.typ, value)
+            else:
+                self.gen_local_zero(field_ptr, field.typ)
 
     def gen_condition_to_integer(self, expr):
         """Generate code that takes a boolean and convert it to integer"""
